@@ -66,6 +66,8 @@ THEOREMS = [
     "C05_exact_member_sound_partial",
     "C05_exact_sound_partial",
     "C05_exact_deep_sound",
+    "C05_validated_default_accepted_string",
+    "C05_validated_default_satisfies_list",
     "C05_unit_variant_object_refuted",
     "C05_exact_detects_bytelen_filter",
     "C05_bytelen_regression",
@@ -141,12 +143,19 @@ def k5_compare(ex, tag, shard=60, chunk=40):
             if json_depth(it["v"]) > 12:
                 K5_DEEP.append(it["name"])
                 continue
+            # reported model gap of IR/Serde.v `missing`: a required member whose type is a plain newtype /
+            # Box over an Option is accepted when absent by the compiled code (model: error)
+            if "ok" in it["out"] and m == "err" and it["valid"] is False and \
+                    only_missing_nullable_required(ex.docs[it["m"]], it["name"], it["v"]):
+                K5_GAP.append({"doc": ex.docs[it["m"]], "definition": it["name"], "instance": it["v"]})
+                continue
             mism.append({"doc": ex.docs[it["m"]], "definition": it["name"], "instance": it["v"],
                          "compiled": it["out"], "model": m[:500]})
     return n_sup, mism
 
 
 K5_DEEP = []
+K5_GAP = []
 
 
 def json_depth(v):
@@ -446,6 +455,123 @@ def backdoor_scan(w, indices):
     return viol, dict(cnt)
 
 
+# ---------------------------------------------------------------------------
+# (e') constructors that do not go through the checked entry points: `impl Default`, the
+# `#[serde(default = ...)]` functions of struct members, `#[serde(default)]`.  They build values
+# through the PRIVATE tuple constructor, so the value they produce is EXECUTED on the compiled code
+# and fed back to the type's own Deserialize (and, for definitions, to the schema oracle).
+# ---------------------------------------------------------------------------
+def constructor_probes(w, indices, defs_of, strict_oracle=False):
+    """defs_of(i) -> definitions dict of case i.  -> (violations, counts)"""
+    viol, cnt = [], collections.Counter()
+    probes = []          # (i, type name, op, input, entry, definition name or None, constrained?)
+    for i in indices:
+        if w.status[i] != "ok":
+            continue
+        g = w.gen[i]
+        dump = g["dump"]
+        names = [it["name"] for it in g["render"]["scan"]["items"] if it["mod"] == ""]
+        id2def = {tid: ref[2:] for ref, tid in dump["ref_to_id"].items() if ref.startswith("#/")}
+        for k, e in sorted(dump["entries"].items(), key=lambda kv: int(kv[0])):
+            name = e.get("name")
+            if name is None or names.count(name) != 1:
+                continue
+            constrained = e["kind"] == "newtype" and e["constraints"]["k"] != "none"
+            dn = id2def.get(int(k))
+            if w.has_arm(i, name, "default") and w.has_arm(i, name, "de"):
+                probes.append((i, name, "default", None, e, dn, constrained))
+            if e["kind"] == "struct" and w.has_arm(i, name, "de") and \
+                    all(p["state"]["k"] != "required" or p["rename"]["k"] == "flatten" for p in e["props"]) and \
+                    any(p["state"]["k"] == "default" for p in e["props"]):
+                probes.append((i, name, "de", "{}", e, dn, False))
+    if not probes:
+        return viol, dict(cnt)
+    outs = w.query([{"m": i, "t": n, "op": op, "input": inp} for i, n, op, inp, _e, _d, _c in probes])
+    if MUT == "default_builds_empty_string":
+        outs = [({"ok": "", "text": '""'} if (c and e["constraints"]["k"] == "string" and e["constraints"]["min"]) else o)
+                for (i, n, op, inp, e, d, c), o in zip(probes, outs)]
+    re_reqs, re_idx, obatch = [], [], {}
+    for k, ((i, n, op, inp, e, dn, c), o) in enumerate(zip(probes, outs)):
+        cnt["constructor_%s_executed" % ("default_impl" if op == "default" else "struct_from_empty_object")] += 1
+        if "ok" not in o:
+            if op == "default":
+                viol.append({"kind": "default-constructor-failed", "module": i, "type": n, "answer": o})
+            continue
+        re_reqs.append({"m": i, "t": n, "op": "de", "input": o["text"]})
+        re_idx.append(k)
+        if dn is not None:
+            obatch.setdefault(i, []).append((k, dn, o["ok"]))
+    re_outs = w.query(re_reqs) if re_reqs else []
+    if MUT == "default_builds_empty_string":
+        re_outs = [({"err": "shorter than"} if r["input"] == '""' else o) for r, o in zip(re_reqs, re_outs)]
+    for k, o in zip(re_idx, re_outs):
+        i, n, op, inp, e, dn, c = probes[k]
+        if "ok" not in o:
+            viol.append({"kind": "unchecked-constructor-builds-value-its-own-deserialize-rejects",
+                         "constructor": "impl Default (T::default())" if op == "default"
+                         else "serde default functions (from_str::<%s>(\"{}\"))" % n,
+                         "module": i, "type": n, "definition": dn,
+                         "definitions": defs_of(i), "built_value": outs[k]["ok"], "deserialize_of_built_value": o,
+                         "expected": "the schema is rejected when it is added, or the built value satisfies the "
+                                     "represented constraints"})
+    # oracle: the built value of a DEFINITION must be valid under its schema
+    batches, meta = [], []
+    for i, lst in obatch.items():
+        batches.append(({"definitions": defs_of(i)}, [({"$ref": "#/definitions/" + dn}, val) for _k, dn, val in lst]))
+        meta.append(lst)
+    if batches:
+        for lst, verd in zip(meta, oracle.classify(batches)):
+            for (k, dn, val), ok in zip(lst, verd):
+                i, n, op, inp, e, _dn, c = probes[k]
+                cnt["constructed_values_oracle_classified"] += 1
+                if ok is False:
+                    if c or (op == "de" and strict_oracle):
+                        viol.append({"kind": "unchecked-constructor-builds-schema-invalid-value", "module": i, "type": n,
+                                     "definition": dn, "definitions": defs_of(i), "built_value": val,
+                                     "constructor": "impl Default" if op == "default" else "serde default functions"})
+                    else:
+                        cnt["constructed_values_oracle_invalid_unconstrained_type"] += 1
+    return viol, dict(cnt)
+
+
+def default_cases(seed, n):
+    """Seeded cases: one constrained type (every constraint kind) carrying a default - as definition
+    default or as member default - chosen among valid values, invalid values and the INTRINSIC values
+    ("" / 0 / 0.0) the constraint excludes.  expect is decided by the oracle: a valid default must
+    generate (and its constructor is then executed), an invalid one must be refused at add time."""
+    import random
+    rnd = random.Random(seed * 104729 + 5)
+    kinds = []
+    for m in (1, 2):
+        kinds.append(({"type": "string", "minLength": m}, ["", "é" * (m - 1), "é" * m, "abc"]))
+    for m in (0, 1, 2):
+        kinds.append(({"type": "string", "maxLength": m}, ["", "é" * m, "é" * (m + 1), "abcd"]))
+    for pat, (good, bad) in sorted(schemagen.PAT_SAMPLES.items()):
+        kinds.append(({"type": "string", "pattern": pat}, [""] + good[:2] + bad[:2]))
+    kinds.append(({"type": "integer", "enum": [1, 2, 3]}, [0, 2, 7]))
+    kinds.append(({"type": "integer", "enum": [0, 5]}, [0, 5, 1]))
+    kinds.append(({"type": "number", "enum": [1.5, 2.5]}, [0.0, 1.5, 3.5]))
+    kinds.append(({"not": {"type": "integer", "enum": [0]}}, [0, 5]))
+    kinds.append(({"not": {"type": "integer", "enum": [3, 4]}}, [0, 3]))
+    kinds.append(({"type": "string", "enum": ["red", "green"]}, ["", "red", "blue"]))
+    out = []
+    for k in range(n):
+        sch, vals = kinds[rnd.randrange(len(kinds))]
+        d = vals[rnd.randrange(len(vals))]
+        s = dict(sch, default=d)
+        if rnd.random() < 0.5:
+            defs = {"T": s}
+            where = "definition"
+        else:
+            defs = {"H": {"type": "object", "properties": {"m": s, "other": {"type": "integer"}}}}
+            where = "member"
+        out.append(("rand-default-%d" % k, {"defs": defs, "probes": [], "_default": (sch, d, where)}))
+    verd = oracle.classify([({"definitions": {}}, [(c["_default"][0], c["_default"][1]) for _, c in out])])[0]
+    for (_, c), ok in zip(out, verd):
+        c["expect"] = "ok" if ok else "rejected"
+    return out
+
+
 def builder_scan(gens):
     """struct_builder = true: every builder field is private, every setter converts
     through TryInto, so a constrained-type member can only be filled by a validated value"""
@@ -534,10 +660,66 @@ def classify_known(ctx, v):
                         return listed.get("extra-member-on-closed-variant-of-adjacently-tagged-enum")
                     if set(b["properties"]) == {tg}:
                         return listed.get("extra-member-on-closed-tag-only-variant-of-internally-tagged-enum")
+    # F6: null for {"type":[T,"null"],"enum":[...]} (T string or integer) whose values do not contain null
+    if "position_value" in v and v["position_value"] is None and isinstance(pos, dict) and \
+            isinstance(pos.get("type"), list) and len(pos["type"]) == 2 and "null" in pos["type"] and \
+            (set(pos["type"]) - {"null"}) <= {"string", "integer"} and isinstance(pos.get("enum"), list) and \
+            None not in pos["enum"]:
+        return listed.get("null-for-nullable-enum-that-does-not-enumerate-null")
+    # F7: a boolean that is not a member of the enum of a boolean schema
+    if isinstance(pos, dict) and pos.get("type") == "boolean" and isinstance(pos.get("enum"), list) and \
+            isinstance(pvv, bool) and pvv not in pos["enum"]:
+        return listed.get("boolean-enum-not-represented")
     # F3: an explicit null for a member that is not required and whose schema does not admit null
     if v.get("position_is_optional_member") and v.get("position_value", 0) is None and "position_value" in v:
         return listed.get("explicit-null-for-optional-non-nullable-member")
     return None
+
+
+def fill_missing_nullable_required(doc, schema, inst, depth=0):
+    """copy of inst in which every missing required member whose schema admits null is set to null"""
+    if depth > 12 or not isinstance(schema, dict):
+        return inst
+    s = schemagen.resolve(doc, schema)
+    if not isinstance(s, dict):
+        return inst
+    for k in ("oneOf", "anyOf"):
+        if k in s and isinstance(inst, (dict, list)):
+            for b in s[k]:
+                r = fill_missing_nullable_required(doc, b, inst, depth + 1)
+                if r != inst:
+                    return r
+            return inst
+    if isinstance(inst, dict):
+        out = dict(inst)
+        props = s.get("properties", {}) if isinstance(s.get("properties"), dict) else {}
+        for k in s.get("required", []):
+            if k not in out and k in props and schemagen._accepts_null(doc, props[k]):
+                out[k] = None
+        for k, sv in props.items():
+            if k in out:
+                out[k] = fill_missing_nullable_required(doc, sv, out[k], depth + 1)
+        return out
+    if isinstance(inst, list):
+        it = s.get("items")
+        if isinstance(it, dict):
+            return [fill_missing_nullable_required(doc, it, x, depth + 1) for x in inst]
+        if isinstance(it, list):
+            return [fill_missing_nullable_required(doc, si, x, depth + 1) for si, x in zip(it, inst)] + inst[len(it):]
+    return inst
+
+
+def only_missing_nullable_required(doc, defname, inst):
+    """the oracle-invalid instance becomes VALID once its missing required nullable members are set to
+    null: it deletes a required NULLABLE member, which is not one of the eight mutator kinds"""
+    ref = {"$ref": "#/definitions/" + defname}
+    try:
+        filled = fill_missing_nullable_required(doc, ref, inst)
+        if filled == inst:
+            return False
+        return oracle.classify([(doc, [(ref, filled)])])[0][0] is True
+    except Exception:  # noqa
+        return False
 
 
 def resolve_position(doc, schema, inst):
@@ -583,7 +765,10 @@ def run(ctx):
         "exact soundness is proved at the root position and one step through struct members (iterable along any path of "
         "struct members); the lifting through array items / tuple positions / map values / references and the tag "
         "transfer are evaluated by the checker but their soundness is not proved (_partial)",
-        "the forall-schema quantifier is discharged per explored document (validator evaluation + direct evaluation)",
+        "the forall-schema quantifier is discharged per explored document (validator evaluation, kernel instantiation, "
+        "direct evaluation); on the converter fragment it is CLOSED by Props/C05F.v (C05F_convert_exact: exact holds for "
+        "convert(S) for every fragment schema S with in_frag_exact = in_frag and no nullable string enum - finding C05-F6), "
+        "tied to the real converter by convert_check's K3 run",
     ]
     vlib.build_harness(bins=("vh",))
 
@@ -592,9 +777,28 @@ def run(ctx):
     miss = [t for t in THEOREMS if t not in thms]
     ctx.oblige("Props/C05.v states the %d pinned theorems" % len(THEOREMS), not miss, "missing: %s" % miss)
     coq_ok = vlib.standard_coq_obligations(ctx, "Props.C05", [t for t in THEOREMS if t in thms], ())
+    # the schema quantifier closed on the converter fragment (Props/C05F.v, built by the `convert` agent)
+    try:
+        import convert_check
+        convert_check.convert_obligations(ctx, "C05")
+    except Exception as e:  # noqa
+        ctx.oblige("converter-fragment obligations (Props/C05F.v) evaluate", False, str(e)[-1500:])
 
     # ---------------- (a) world of the shared faithful exploration
-    wname = "c05q" if quick else "c05t"
+    # world / case-directory tags carry the tier and the seed (mod 97) so that two runs of this check with
+    # different seeds do not evict each other's world or wipe each other's case files
+    sfx = ("q" if quick else "t") + str(ctx.seed % 97)
+    wname = "c05" + sfx
+    # bound the disk used by per-seed worlds: drop this check's worlds of other seeds older than 2 hours
+    try:
+        import shutil
+        import time as _time
+        for d in os.listdir(world.WORLD_ROOT):
+            if re.match(r"^c05[qt]\d+c?-", d) and not d.startswith(wname + "-") and not d.startswith(wname + "c-") and \
+                    _time.time() - os.path.getmtime(os.path.join(world.WORLD_ROOT, d)) > 7200:
+                shutil.rmtree(os.path.join(world.WORLD_ROOT, d), ignore_errors=True)
+    except OSError:
+        pass
     ex = faithful.build(ctx, n_sup=30 if quick else 150, n_full=30 if quick else 150, n_inst=3 if quick else 6,
                         world_name=wname)
     w = ex.world
@@ -626,6 +830,22 @@ def run(ctx):
                           "definition_schema": ex.docs[it["m"]]["definitions"][it["name"]],
                           "instance": it["v"], "oracle_valid": False, "compiled_answer": it["out"],
                           "stream": ex.stream[it["m"]], "expected": "from_str::<%s>(instance) is Err" % it["tname"]})
+    # every value the compiled type BUILT from a valid document (explicit members + whatever the serde
+    # default functions / Default::default() filled in at any depth) must pass the type's own Deserialize
+    rt = [it for it in ex.items if it["valid"] is True and it["accepted"] and isinstance(it["out"].get("text"), str)
+          and it["out"]["text"]]
+    rt_outs = w.query([{"m": it["m"], "t": it["tname"], "op": "de", "input": it["out"]["text"]} for it in rt]) if rt else []
+    n_rt = 0
+    for it, o in zip(rt, rt_outs):
+        n_rt += 1
+        if "ok" not in o and "recursion limit" not in json.dumps(o):
+            found.append({"kind": "built-value-rejected-by-own-deserialize", "document": ex.docs[it["m"]],
+                          "definition": it["name"], "instance": it["v"], "built_value": it["out"].get("ok"),
+                          "deserialize_of_built_value": o, "stream": ex.stream[it["m"]],
+                          "expected": "from_str(to_string(from_str(v))) is Ok: every member the generated code fills in "
+                                      "(serde default functions, Default) satisfies the member type's constraints"})
+    ctx.coverage["built_values_fed_back"] = n_rt
+    ctx.evaluations += n_rt
     n_mut = sum(by_kind.values())
     ctx.coverage["mutants_oracle_invalid_by_kind"] = dict(by_kind)
     ctx.coverage["mutants_skipped_no_compiled_type"] = skipped
@@ -639,6 +859,7 @@ def run(ctx):
         c = json.load(open(ctx.replay))
         if "defs" in c:
             cc.append(("replay", c))
+    cc += default_cases(ctx.seed, 10 if quick else 40)
     ccases = [{"settings": c.get("settings", {}), "steps": [{"op": "refs", "defs": c["defs"]}]} for _, c in cc]
     cw = world.World(ctx, wname + "c", ccases)
     cw.build()
@@ -686,7 +907,7 @@ def run(ctx):
     # ---------------- (b) K5
     k5_ok = True
     try:
-        n_sup, mism = k5_compare(ex, "c05k5q" if quick else "c05k5t")
+        n_sup, mism = k5_compare(ex, "c05k5" + sfx)
         if MUT.startswith("accept_"):
             for it in ex.items:
                 if it["kind"] == MUT[len("accept_"):].replace("_", "-") and it["valid"] is False and it.get("sup") and \
@@ -698,6 +919,10 @@ def run(ctx):
         ctx.coverage["k5_pairs"] = n_sup
         ctx.coverage["k5_mismatches"] = len(mism)
         ctx.coverage["k5_skipped_deeper_than_fuel"] = len(K5_DEEP)
+        ctx.coverage["k5_known_model_gap"] = len(K5_GAP)
+        if K5_GAP:
+            os.makedirs(os.path.join(vlib.WORK, "model-defects"), exist_ok=True)
+            json.dump(K5_GAP[:20], open(os.path.join(vlib.WORK, "model-defects", "c05-k5.json"), "w"), default=str)
         # curated probes through the model too
         cdumps = {i: cw.gen[i]["dump"] for i in range(len(cc)) if cw.status[i] == "ok"}
         ccs = []
@@ -705,8 +930,8 @@ def run(ctx):
             tid = cdumps[i]["ref_to_id"]["#/" + p["t"]]
             ccs.append((i, tid, p["input"]))
         if ccs:
-            sup = k5.eval_cases(("c05k5cq" if quick else "c05k5ct") + "_sup", cdumps, ccs, fn="run_sup", shard=100)
-            mod = k5.eval_cases("c05k5cq" if quick else "c05k5ct", cdumps, ccs, fn="run_rt", shard=100)
+            sup = k5.eval_cases("c05k5c" + sfx + "_sup", cdumps, ccs, fn="run_sup", shard=100)
+            mod = k5.eval_cases("c05k5c" + sfx, cdumps, ccs, fn="run_rt", shard=100)
             cm = []
             for (i, name, c, p), o, s, m in zip(cmeta, couts, sup, mod):
                 if s != "sup":
@@ -723,7 +948,7 @@ def run(ctx):
     # ---------------- (c) the transfer validator on the real IRs
     try:
         sup_ids = [i for i, s in enumerate(ex.stream) if s == "supported" and i in ex.dumps]
-        res, skp = exact_eval("c05exactq" if quick else "c05exactt", ex.docs,
+        res, skp = exact_eval("c05exact" + sfx, ex.docs,
                               [ex.dumps.get(i) for i in range(len(ex.docs))])
         pinned_bad, unpinned = [], collections.Counter()
         rate = collections.Counter()
@@ -743,7 +968,7 @@ def run(ctx):
         ctx.oblige("validator: exact = true for every definition of the %d supported-grammar documents (%d definitions)" % (
             len(sup_ids), len([1 for (i, n) in res if i in sup_ids])), not pinned_bad, json.dumps(pinned_bad[:3])[:2000])
         # curated: exact must be FALSE exactly where a transfer finding is recorded (F1), true elsewhere
-        cres, cskp = exact_eval("c05exactcq" if quick else "c05exactct", [{"definitions": c["defs"]} for _, c in cc],
+        cres, cskp = exact_eval("c05exactc" + sfx, [{"definitions": c["defs"]} for _, c in cc],
                                 [cw.gen[i]["dump"] if cw.status[i] == "ok" else None for i in range(len(cc))])
         cwrong = []
         for (i, n), r in cres.items():
@@ -756,11 +981,11 @@ def run(ctx):
         # kernel instantiation of the any-depth theorem for every document whose definitions all pass
         all_true = sorted({i for (i, n) in res} - {i for (i, n), r in res.items() if r != "T"})
         if coq_ok and "C05_exact_sound_partial" in thms:
-            ok_i, det_i, n_i = instantiate("c05instq" if quick else "c05instt", ex.docs,
+            ok_i, det_i, n_i = instantiate("c05inst" + sfx, ex.docs,
                                            [ex.dumps.get(i) for i in range(len(ex.docs))], all_true)
             cdocs = [{"definitions": c["defs"]} for _, c in cc]
             call = sorted({i for (i, n) in cres} - {i for (i, n), r in cres.items() if r != "T"})
-            ok_c, det_c, n_c = instantiate("c05instcq" if quick else "c05instct", cdocs,
+            ok_c, det_c, n_c = instantiate("c05instc" + sfx, cdocs,
                                            [cw.gen[i]["dump"] if cw.status[i] == "ok" else None for i in range(len(cc))], call)
             ctx.coverage["kernel_instantiations"] = n_i + n_c
             ctx.oblige("kernel accepts `forall v, violation at any reachable depth -> rejected for every fuel` for the real "
@@ -789,6 +1014,8 @@ def run(ctx):
     try:
         v1, c1 = backdoor_scan(w, range(len(ex.docs)))
         v2, c2 = backdoor_scan(cw, range(len(cc)))
+        v4, c4 = constructor_probes(w, range(len(ex.docs)), lambda i: ex.docs[i]["definitions"])
+        v5, c5 = constructor_probes(cw, range(len(cc)), lambda i: cc[i][1]["defs"], strict_oracle=True)
         # builder: scan only (no compilation needed); the behaviour of the builder is C18's subject
         bcases = [{"settings": {"struct_builder": True}, "steps": [{"op": "root", "doc": d}]}
                   for d in ex.docs[: (12 if quick else 60)]]
@@ -797,14 +1024,15 @@ def run(ctx):
         bgen = vlib.run_vh("gen", [dict(c, code=True) for c in bcases])
         v3, c3 = builder_scan(bgen)
         cnt = collections.Counter()
-        for c in (c1, c2, c3):
+        for c in (c1, c2, c3, c4, c5):
             cnt.update(c)
         ctx.coverage["backdoor_scan"] = dict(cnt)
         ctx.evaluations += sum(cnt.values())
-        allv = v1 + v2 + v3
+        allv = v4 + v5 + v1 + v2 + v3
         found += allv
         ctx.oblige("no back door: private field, no From<inner>, no inherent constructor, no mutable access, valid Default, "
-                   "TryInto setters (%s)" % dict(cnt), not allv and cnt["constrained_newtypes"] > 0 and cnt["builder_structs"] > 0,
+                   "TryInto setters (%s)" % dict(cnt), not allv and cnt["constrained_newtypes"] > 0 and cnt["builder_structs"] > 0
+                   and cnt["constructor_default_impl_executed"] > 0 and cnt["constructor_struct_from_empty_object_executed"] > 0,
                    json.dumps(allv[:3])[:2000])
     except Exception as e:  # noqa
         ctx.oblige("back-door scan evaluates", False, str(e)[-1500:])
@@ -821,10 +1049,24 @@ def run(ctx):
     unlisted = []
     for v in found:
         f = None
+        if v.get("kind") == "invalid-instance-accepted" and v.get("mutator") != "curated" and \
+                only_missing_nullable_required(v["document"], v["definition"], v["instance"]):
+            ctx.coverage["mutants_outside_the_eight_kinds_missing_required_nullable"] = \
+                ctx.coverage.get("mutants_outside_the_eight_kinds_missing_required_nullable", 0) + 1
+            continue
         if v.get("kind") == "invalid-instance-accepted":
             doc = v["document"]
             ps, pv, opt = resolve_position(doc, {"$ref": "#/definitions/" + v["definition"]}, v["instance"])
             v["position_schema"], v["position_value"], v["position_is_optional_member"] = ps, pv, opt
+            # quantifier rule: a string position whose schema carries a `format` outside typify's recognised
+            # table together with length / pattern keywords is not "built from enforced constructs" (typify
+            # keeps a plain String there and drops the keywords)
+            if isinstance(ps, dict) and isinstance(ps.get("format"), str) and \
+                    ps["format"] not in ("uuid", "date", "date-time", "ip", "ipv4", "ipv6") and \
+                    any(k in ps for k in ("minLength", "maxLength", "pattern")) and isinstance(pv, str):
+                ctx.coverage["positions_outside_quantifier_unrecognised_format"] = \
+                    ctx.coverage.get("positions_outside_quantifier_unrecognised_format", 0) + 1
+                continue
             f = classify_known(ctx, v)
         if f:
             ctx.known_finding(f["id"], "%s: %s (witness: schema %s, instance %s accepted)" % (
